@@ -20,7 +20,7 @@ RULE = ("a case is (hash algorithm, secret p as text or bytes - empty, Unicode, 
         "dumps/loads in every format so the same challenges keep their outcome, and a plaintext written by hand into "
         "a document is hashed on load; non-trivial = non-empty p with >= 3 near misses judged; distinct = distinct "
         "case content")
-REQUIRED = ("printed_forms_parsed_back", "byte_secrets_that_are_not_utf8", "digest_values_with_other_salt_length", "plaintext_in_included_file_hashed", "same_field_reassignments", "env_bound_unset_variable", "reset_default_checks", "bulk_list_salt_checks", "digests_recomputed", "fresh_salt_checks", "challenge_accepts_p", "challenge_rejects_q", "leak_scans_memory",
+REQUIRED = ("secrets_of_round_sizes", "secrets_of_whole_mebibytes", "secrets_shaped_like_references", "printed_forms_parsed_back", "byte_secrets_that_are_not_utf8", "digest_values_with_other_salt_length", "plaintext_in_included_file_hashed", "same_field_reassignments", "env_bound_unset_variable", "reset_default_checks", "bulk_list_salt_checks", "digests_recomputed", "fresh_salt_checks", "challenge_accepts_p", "challenge_rejects_q", "leak_scans_memory",
             "leak_scans_documents", "roundtrips_digest_unchanged", "plaintext_in_document_hashed", "alg:md5", "alg:sha1",
             "alg:sha224", "alg:sha256", "alg:sha384", "alg:sha512")
 ASSUMPTIONS = ["hashlib is the reference implementation of the six algorithms", "documents are produced/decoded with the "
@@ -31,7 +31,8 @@ ALGS = {"md5": 16, "sha1": 20, "sha224": 28, "sha256": 32, "sha384": 48, "sha512
 def generate(rng, ctx):
     alg = rng.choice(list(ALGS))
     tok = token(rng)
-    kind = weighted(rng, [(5, "token"), (1, "empty"), (2, "unicode"), (1, "long"), (1, "short"), (2, "shaped"), (2, "compat"), (1.5, "rawbytes")])
+    kind = weighted(rng, [(5, "token"), (1, "empty"), (2, "unicode"), (1, "long"), (1, "short"), (2, "shaped"), (2, "compat"), (1.5, "rawbytes"), (1.2, "expands"), (0.25, "sized")])
+    size = None
     if kind == "empty":
         p = ""
     elif kind == "unicode":
@@ -44,6 +45,17 @@ def generate(rng, ctx):
         # secrets that look like other on-disk shapes: 'salt:digest' text, base64, JSON, key=value
         p = rng.choice(["pass:word", "abcd:efgh", ":", "QUJD:REVG", "a:b", "YWJj", "{\"salt\": \"x\"}", "salt=1;digest=2",
                         "c2FsdA==:ZGlnZXN0", tok[:8] + ":" + tok[8:], "::", "=" * 4])
+    elif kind == "expands":
+        # secrets that some layer might expand, substitute or unescape: environment references (HOME and PATH are set),
+        # home directories, format directives, escapes, entities
+        p = rng.choice(["$HOME", "${HOME}", "tok-${PATH}-x", "$PATH:" + tok, "~", "~/" + tok, "%(HOME)s", "%HOME%", "{0}", "{HOME}",
+                        "\\n" + tok, "&amp;" + tok, "&#36;HOME", "%24HOME", "$$HOME", "`echo x`", "$(echo x)", "!!str x", "*a", "&a x",
+                        "<<: x", "@" + tok, "%s" + tok]) + rng.choice(["", "", tok])
+    elif kind == "sized":
+        # long secrets whose encoded length sits on and next to the round sizes a buffered reader or hasher would use
+        unit = rng.choice([1 << 16, 1 << 20, 1 << 20, 1 << 19, 4096, 1 << 21])
+        size = unit * rng.choice([1, 2, 2, 3, 4]) + rng.choice([0, 0, 0, 1, -1])
+        p = tok
     elif kind == "compat":
         # not in NFC/NFKC form: full-width letters, ligature, superscript, combining accent
         p = rng.choice(["\uff50\uff41\uff53\uff53", "\ufb01le", "x\u00b2", "e\u0301", "\u212b", "\u00e9"]) + rng.choice(["", tok])
@@ -58,7 +70,7 @@ def generate(rng, ctx):
                 "salt_len": rng.choice([None, None, 1, -1, 8, "double", "hexlike3", "hexlike48"]),
                 "fmts": rng.sample(trees.FORMATS, rng.choice([2, 3, 5])), "upper": rng.random() < 0.3,
                 "env": rng.choice([None, None, "field-named", "schema-prefix"]), "reassign_route": "attr"}
-    return {"alg": alg, "p": p.encode() if as_bytes else p, "tok": tok if tok in p else None,
+    return {"alg": alg, "p": p.encode() if as_bytes else p, "tok": tok if tok in p else None, "size": size, "kind": kind,
             "place": rng.choice(["root", "nested", "list-item", "list-of-challenge", "default-plain", "default-digest",
                                  "assigned-digest"]),
             # digest values given directly (imported hashes) may carry a salt of any length
@@ -110,6 +122,13 @@ def near_misses(p, digest):
 def run(case, ctx, res):
     cc = ctx.cc
     alg, p, tok, place = case["alg"], case["p"], case["tok"], case["place"]
+    if case.get("size"):
+        p = (p * (case["size"] // len(p) + 1))[:case["size"]]
+        res.count("secrets_of_round_sizes")
+        if case["size"] % (1 << 20) == 0 and case["size"] > (1 << 20):
+            res.count("secrets_of_whole_mebibytes")
+    if case.get("kind") == "expands":
+        res.count("secrets_shaped_like_references")
     pb = p.encode() if isinstance(p, str) else p
     res.count("alg:" + alg)
     if not _decodable(pb):
@@ -404,7 +423,7 @@ def run(case, ctx, res):
                                  fmt, _short(p2), where, _short(v)))
                     return
     if pb and len(misses) >= 3:
-        res.nontrivial(case["alg"], case["p"], case["place"], case["fmts"])
+        res.nontrivial(case["alg"], case["p"], case.get("size"), case["place"], case["fmts"])
 
 
 def _decodable(b):
